@@ -43,11 +43,10 @@ func (n *node[K, V]) find(compareFunc func(a, b K) int, key K) *node[K, V] {
 		return n.right.find(compareFunc, key)
 	default:
 		// Always return the left-most one in the case of multiple matches
-		cur := n
-		for cur.left != nil && compareFunc(key, cur.left.key) == 0 {
-			cur = cur.left
+		if first := n.left.find(compareFunc, key); first != nil {
+			return first
 		}
-		return cur
+		return n
 	}
 }
 
